@@ -218,6 +218,16 @@ var fmtFileSeeds = []string{
 }
 
 var fmtSeeds = []string{
+	// white space that is not a line feed (form feed, vertical tab, a lone carriage return) after an inline node of a one-line element
+	"<p><b>Name:</b>\f<i>{ s }</i></p>",
+	"<li>{ s }\r{ t }</li>",
+	"<td><a href=\"/\">home</a>\v/ docs</td>",
+	"<p>{ s }\f{ t }\v<b>x</b>\r<i>y</i></p>",
+	// element names with capitals (SVG, MathML, XML)
+	"<svg viewBox=\"0 0 1 1\"><defs><linearGradient id=\"g\"><stop offset=\"0\"></stop></linearGradient><clipPath id=\"c\"><rect></rect></clipPath></defs><foreignObject><p>x</p></foreignObject></svg>",
+	"<feGaussianBlur stdDeviation=\"2\"></feGaussianBlur><myTag>{ s }</myTag>",
+	// a script element whose {{ }} expressions are followed by white space
+	"<script>\n\t\tconst a = {{ n }} + 1;\n\t\tconst b = \"{{ s }} {{ t }}\";\n\t\tconst half = {{ n / 2 }}\n\t\tconsole.log(a, b, half)\n\t</script>",
 	"{! leaf( s ) }",
 	// the same statement in a one-line and in a multi-line {{ }} block of one file (and of the next file of the run)
 	"{{ _ = n }}\n\t<p>a</p>\n\t{{\n\t\t_ = n\n\t}}\n\t<p>b</p>",
